@@ -109,6 +109,16 @@ def run(tier, rep):
                                    "bytes": data[:i] + [b] + data[i + 1:]})
         for k in range(0, len(data), 7 if quick else 2):
             faulty.append({"id": "dropbox:truncate:%d" % k, "base": "dropbox", "kind": "hostile", "pos": k, "val": [], "bytes": data[:k]})
+    # the Dropbox path reads its body with xdis.marsh's fast reader: count and length fields with adversarial values, at top level and
+    # inside a container (a length that moves the read position backwards makes a dict reader loop over the same bytes)
+    import struct
+    dhead = [183, 242, 13, 10, 0, 0, 0, 0]
+    for nm, n_ in (("neg5", -5), ("neg1", -1), ("min", -2 ** 31), ("max", 2 ** 31 - 1)):
+        le = list(bytearray(struct.pack("<i", n_)))
+        for shape, body in (("s", [115] + le + [97, 98, 99, 48]), ("dict-s", [123, 115] + le + [97, 98, 99, 48]), ("tuple", [40] + le + [78, 78, 48]),
+                            ("list-t", [91, 1, 0, 0, 0, 116] + le + [97, 48]), ("unicode", [117] + le + [97, 98, 48]), ("long", [108] + le + [1, 0, 1, 0])):
+            faulty.append({"id": "dropbox:count:%s:%s" % (shape, nm), "base": "dropbox", "kind": "hostile", "pos": -1, "val": [],
+                           "bytes": dhead + body + [0] * 60})
     faulty.append({"id": "dropbox:garbage", "base": "dropbox", "kind": "hostile", "pos": -1, "val": [], "bytes": [183, 242, 13, 10] + [rnd.randrange(256) for _ in range(200)]})
     # the native fast path on a real file of the host's own version
     samples = bcrun.ensure_samples(90)
